@@ -361,6 +361,10 @@ class Driver:
             self.cov.add("raised_examples", {"site": site, "ops": [list(map(str, o)) for o in self.log]} if site not in self.cov.d.get("raised", {}) or
                          self.cov.d["raised"][site] <= 1 else {"site": site})
             self.log[-1].append(f"raised {type(e).__name__}: {e}"[:160])
+            if fr.filename.rsplit("/", 1)[-1] in ("base.py", "terminal.py", "ssh.py"):
+                # the anchored session machinery itself (login / time-out / logout / command dispatch) aborted half-way: whatever it was
+                # ending or refusing was not brought to completion (e.g. the remaining time-outs of the same tick never run)
+                self.v(f"session-machinery-raises/{site}", f"{kind} raised {type(e).__name__}: {str(e)[:120]} inside the session machinery ({site})")
             self.crashed = True
             self.stop = True
             return
